@@ -1,1 +1,3 @@
 import MambaVerif.Props.C18
+import MambaVerif.Props.C14
+import MambaVerif.Props.C03
